@@ -5,7 +5,7 @@ usage: gen_conf.py <src conf dir> <variant> <out dir>
 """
 import sys, os, re, shutil
 
-VARIANTS = ['leaf_extrapolation', 'rename_keys', 'rename_types', 'separators', 'insert_level', 'renamed_everything', 'all_changes']
+VARIANTS = ['third_path_config', 'leaf_extrapolation', 'rename_keys', 'rename_types', 'separators', 'insert_level', 'renamed_everything', 'all_changes']
 
 
 def sub_all(text, pairs):
@@ -60,6 +60,18 @@ def insert_level_renamed(t, name):
     return t
 
 
+def third_path_config(out):
+    """a third, self-contained path configuration 'archive' with its own root and its own value mapping for the state key"""
+    t = open(os.path.join(out, 'spil_fs_conf.py')).read()
+    t = t.replace('"LOCAL"', '"ARCHIVE"')
+    t = t.replace("key_patterns = key_patterns.copy()", "import copy\nkey_patterns = copy.deepcopy(key_patterns)")
+    t = t.replace("'WORK'", "'WIP'").replace("'PUBLISH'", "'PUB'").replace('(WORK|PUBLISH|', '(WIP|PUB|').replace('(PUBLISH|', '(PUB|').replace('(WORK|', '(WIP|')
+    open(os.path.join(out, 'spil_fs_archive_conf.py'), 'w').write(t)
+    d = open(os.path.join(out, 'spil_data_conf.py')).read()
+    d = d.replace("'server': 'spil_fs_server_conf'", "'server': 'spil_fs_server_conf',\n                'archive': 'spil_fs_archive_conf'")
+    open(os.path.join(out, 'spil_data_conf.py'), 'w').write(d)
+
+
 def main():
     src, variant, out = sys.argv[1:4]
     os.makedirs(out, exist_ok=True)
@@ -90,6 +102,8 @@ def main():
                 t = re.sub(r"to_extrapolate = \['(\w+)__(state|status)', '(\w+)__(state|status)'\]",
                            r"to_extrapolate = ['\1__file', '\3__file']", t)
         open(os.path.join(out, name), 'w').write(t)
+    if variant in ('all_changes', 'third_path_config'):
+        third_path_config(out)
     print('generated', variant, 'in', out)
 
 
